@@ -128,7 +128,11 @@ impl StrategyPlanner {
             // A symlink in the directory's place (the source entry used to be a link) has to be
             // replaced by a real directory: its children must not be written through it
             let is_link = matches!(std::fs::symlink_metadata(&dest_path), Ok(ref m) if m.file_type().is_symlink());
-            let action = if exists && !is_link {
+            // A regular file in the directory's place is not "already there" either: creating the
+            // directory fails then, and that failure has to be reported (it used to be skipped
+            // silently, with exit status 0 and the wrong kind of entry left in place)
+            let is_file = matches!(std::fs::symlink_metadata(&dest_path), Ok(ref m) if m.is_file());
+            let action = if exists && !is_link && !is_file {
                 SyncAction::Skip
             } else {
                 SyncAction::Create
@@ -137,6 +141,12 @@ impl StrategyPlanner {
         } else {
             // For files, check existence and file info
             match transport.file_info(&dest_path).await {
+                // A directory in the file's place: its size and mtime say nothing about the file. The
+                // copy will fail (EISDIR) and be reported; comparing used to end in a silent skip
+                // whenever the directory's stat happened to match.
+                Ok(_) if std::fs::symlink_metadata(&dest_path).is_ok_and(|m| m.is_dir()) => {
+                    (SyncAction::Update, None, None)
+                }
                 Ok(dest_info) => {
                     // Compute checksums if verifier is present and files are local
                     let (source_cksum, dest_cksum) = if let Some(ref verifier) = self.verifier {
